@@ -125,7 +125,7 @@ def statistic(ctx):
     tr = ctx.trace("LinearFourRates", "update", assume={"_drift_state": None, "parallelize": False}, nonnull=NN)
     ssr = A("_samples_since_reset") + const(1)
     mu = [e for e in tr.mutations("_r_stat") if e.how == "setitem" and e.func.name == "_calculate_rate_bounds"]
-    ctx.ob("ROLE", "LinearFourRates.update", "statistic stored per rate", len(mu) == 1, "found %d" % len(mu))
+    ctx.anchor("LinearFourRates.update", "statistic stored per rate", len(mu) == 1, "found %d" % len(mu))
     if not mu:
         return
     e = mu[0]
@@ -278,7 +278,7 @@ def _bound_key(leaf):
 def cache(ctx):
     tr = ctx.trace("LinearFourRates", "update", assume={"_drift_state": None, "parallelize": False}, nonnull=NN)
     cs = q.find_calls(tr, "LinearFourRates._update_bounds_dict")
-    ctx.ob("ROLE", "LinearFourRates.update", "bounds looked up through the cache", len(cs) == 1, "")
+    ctx.anchor("LinearFourRates.update", "bounds looked up through the cache", len(cs) == 1, "")
     if cs:
         a = cs[0].args
         rv = A("round_val")
